@@ -132,9 +132,11 @@ func (r *run) callSSA(fn *ssa.Function, args []Value, env []Value) Value {
 			return r.callSSA(sub, args, nil)
 		}
 		if in, ok := r.eng.Intrinsics[name]; ok {
+			r.intrFn = fn
 			return in(r, nil, args)
 		}
 		if in, ok := r.eng.Intrinsics[stripTypeArgs(name)]; ok {
+			r.intrFn = fn
 			return in(r, nil, args)
 		}
 		if pk := fn.Package(); pk != nil && stubPkgs[pk.Pkg.Path()] {
